@@ -70,6 +70,93 @@ func c16Facts(l *leanDefs) {
 	l.def("c16GroupedActions", "List String", leanStrList(grouped), src)
 	l.def("c16Stale", "Bool", map[bool]string{true: "true", false: "false"}[stale], src)
 	l.def("c16ReaderLoop", "List String", leanStrList(c16ReaderLoop()), "pkg/metric_storage/operation/operation.go MetricOperationsFromReader")
+	l.def("c16ReaderWrites", "List String", leanStrList(c16ReaderWrites()), "pkg/metric_storage/operation/operation.go MetricOperationsFromReader")
+	l.def("c16VaultNames", "List String", leanStrList(c16VaultNames()), "pkg/metric_storage/vault/vault.go GetOrCreate{Counter,Gauge}Collector")
+	l.def("c16VecNames", "List String", leanStrList(c16VecNames()), "pkg/metric_storage/metric_storage.go Gauge/RegisterGauge/Counter/RegisterCounter/Histogram/RegisterHistogram")
+}
+
+func c16Print(n any) string {
+	var b bytes.Buffer
+	if printer.Fprint(&b, token.NewFileSet(), n) != nil {
+		return "?"
+	}
+	return b.String()
+}
+
+// c16ReaderWrites lists, in source order, every place the loop of MetricOperationsFromReader writes to
+// after Decode: the targets of its assignments (and ++/--), and the calls whose argument is the address of
+// the decoded operation. The model's `normalize` writes Action and Value only: name, group and labels
+// reach SendBatch exactly as decoded.
+func c16ReaderWrites() []string {
+	fd := findFunc("pkg/metric_storage/operation/operation.go", "", "MetricOperationsFromReader")
+	if fd == nil || fd.Body == nil {
+		return []string{"?"}
+	}
+	var out []string
+	for _, s := range fd.Body.List {
+		fs, ok := s.(*ast.ForStmt)
+		if !ok || fs.Body == nil {
+			continue
+		}
+		ast.Inspect(fs.Body, func(n ast.Node) bool {
+			switch x := n.(type) {
+			case *ast.AssignStmt:
+				for _, lhs := range x.Lhs {
+					out = append(out, c16Print(lhs))
+				}
+			case *ast.IncDecStmt:
+				out = append(out, c16Print(x.X))
+			case *ast.CallExpr:
+				for _, a := range x.Args {
+					if u, ok := a.(*ast.UnaryExpr); ok && u.Op == token.AND {
+						out = append(out, c16Print(x.Fun)+"(&"+c16Print(u.X)+")")
+					}
+				}
+			}
+			return true
+		})
+	}
+	if len(out) == 0 {
+		return []string{"?"}
+	}
+	return out
+}
+
+// c16VaultNames lists, per function, every use of a metric name in the grouped vault's get-or-create path:
+// the resolution, the index expressions of `v.collectors` (lookup, store), the name given to the new
+// collector (= the name registered in the registry), and what CounterAdd / GaugeSet hand over.
+func c16VaultNames() []string {
+	var out []string
+	for _, fn := range []string{"GetOrCreateCounterCollector", "GetOrCreateGaugeCollector", "CounterAdd", "GaugeSet"} {
+		fd := findFunc("pkg/metric_storage/vault/vault.go", "GroupedVault", fn)
+		if fd == nil || fd.Body == nil {
+			return []string{"?"}
+		}
+		out = append(out, fn+":")
+		ast.Inspect(fd.Body, func(n ast.Node) bool {
+			switch x := n.(type) {
+			case *ast.AssignStmt:
+				if len(x.Rhs) == 1 {
+					if c, ok := x.Rhs[0].(*ast.CallExpr); ok && exprStr(c.Fun) == "v.resolveMetricNameFunc" {
+						out = append(out, c16Print(x))
+					}
+				}
+			case *ast.IndexExpr:
+				if exprStr(x.X) == "v.collectors" {
+					out = append(out, c16Print(x))
+				}
+			case *ast.CallExpr:
+				f := exprStr(x.Fun)
+				for _, want := range []string{"metric.NewConstCounterCollector", "metric.NewConstGaugeCollector", "v.GetOrCreateCounterCollector", "v.GetOrCreateGaugeCollector"} {
+					if f == want && len(x.Args) > 0 {
+						out = append(out, f+"("+c16Print(x.Args[0])+", _)")
+					}
+				}
+			}
+			return true
+		})
+	}
+	return out
 }
 
 // c16ReaderLoop reads the head of the loop of MetricOperationsFromReader
@@ -128,4 +215,39 @@ func init() {
 			Fields: []string{},
 			Calls:  []string{"New64a", "Write", "Sum64"}},
 	)
+}
+
+// c16VecNames: the same for the ungrouped vecs of MetricStorage — the index expressions of m.Gauges /
+// m.Counters / m.Histograms (lookup in X(), double check and store in RegisterX()), the resolution, and the
+// `Name:` given to the new vec (= the name registered in the registry).
+func c16VecNames() []string {
+	var out []string
+	for _, fn := range []string{"Gauge", "RegisterGauge", "Counter", "RegisterCounter", "Histogram", "RegisterHistogram"} {
+		fd := findFunc("pkg/metric_storage/metric_storage.go", "MetricStorage", fn)
+		if fd == nil || fd.Body == nil {
+			return []string{"?"}
+		}
+		out = append(out, fn+":")
+		ast.Inspect(fd.Body, func(n ast.Node) bool {
+			switch x := n.(type) {
+			case *ast.AssignStmt:
+				if len(x.Rhs) == 1 && len(x.Lhs) == 1 {
+					if c, ok := x.Rhs[0].(*ast.CallExpr); ok && exprStr(c.Fun) == "m.resolveMetricName" {
+						out = append(out, c16Print(x))
+					}
+				}
+			case *ast.IndexExpr:
+				switch exprStr(x.X) {
+				case "m.Gauges", "m.Counters", "m.Histograms":
+					out = append(out, c16Print(x))
+				}
+			case *ast.KeyValueExpr:
+				if exprStr(x.Key) == "Name" {
+					out = append(out, "Name: "+c16Print(x.Value))
+				}
+			}
+			return true
+		})
+	}
+	return out
 }
